@@ -52,7 +52,7 @@ GROUPS = {
     ('insert_treats_keys_independently', 'insert_try_per_key'),
     ('insert_treats_keys_independently_on_model_extension', 'insert_try_per_key_on_ext'),
     ('insert_key_step_non_slice_is_model', 'keyStep_non_slice_eq'), ('insert_key_step_slice_is_model', 'keyStep_slice_eq'),
-    ('insert_key_step_sample_is_model', 'keyStep_sample_eq')]),
+    ('insert_key_step_sample_is_model', 'keyStep_sample_eq'), ('insert_try_ends_normally_when_steps_do', 'insert_try_ok')]),
  'filter': ('dcmstack.py: make_key_regex_filter and its inner function',
    [('key_regex_filter_is_model', 'key_regex_filter_eq')]),
  'orient': ('dcmstack.py: the voxel_order checks of reorder_voxels',
